@@ -297,7 +297,12 @@ var origins = []origin{
 	// IPv6-literal origins (used by a dedicated family only): the textual forms "[fd00::443]:8443" and "[fd00::]:8443" must not
 	// be confused with one another, nor with "[fd00::]:443"
 	{"https", "[fd00::443]", "8443"}, {"https", "[fd00::]", "8443"}, {"https", "[fd00::]", ""}, {"https", "[fd00::8443]", ""},
+	// the fully-qualified spelling of a.example (used by a dedicated family only): another URL authority, hence another origin
+	// with connections of its own, dialed for the name as the URL spells it
+	{"https", "a.example.", ""},
 }
+
+const dottedOrigin = 13
 
 const firstLiteralOrigin = 9
 
@@ -544,7 +549,7 @@ func runHistory(hc histCase, host string) (key, what string) {
 			if s.sni != "" {
 				return "sni", fmt.Sprintf("%s: TLS SNI %q for an IP-literal origin", tag, s.sni)
 			}
-		} else if s.sni != o.Host {
+		} else if s.sni != strings.TrimSuffix(o.Host, ".") { // (the SNI extension never carries the final dot)
 			return "sni", fmt.Sprintf("%s: TLS SNI %q, want the URL's host %q", tag, s.sni, o.Host)
 		}
 		for _, d := range newDials {
@@ -625,7 +630,7 @@ func histories(r *ev.Run) {
 		})
 	}
 	// IPv6-literal origins: every sequence of length <=3 over the four literals (no DNS involved)
-	enum.Sequences(len(origins)-firstLiteralOrigin, 3, func(seq []int) {
+	enum.Sequences(dottedOrigin-firstLiteralOrigin, 3, func(seq []int) {
 		if len(seq) == 0 {
 			return
 		}
@@ -635,6 +640,19 @@ func histories(r *ev.Run) {
 		}
 		cases = append(cases, histCase{Zone: 0, Seq: s2})
 	})
+	// a.example and a.example. (the same host, two URL authorities): every sequence of length <= 3 over the two spellings
+	for z := 0; z < 2; z++ {
+		enum.Sequences(2, 3, func(seq []int) {
+			if len(seq) == 0 || !slices.Contains(seq, 1) {
+				return
+			}
+			var s2 []int
+			for _, i := range seq {
+				s2 = append(s2, []int{0, dottedOrigin}[i])
+			}
+			cases = append(cases, histCase{Zone: z, Seq: s2})
+		})
+	}
 	// depth-3 sequences over the pairs that could collide in a connection pool (same host different port/scheme), also in quick
 	if !r.Thorough() {
 		for z := 1; z < 3; z++ {
